@@ -15,29 +15,31 @@ ENV = dict(os.environ, GOPROXY="off", GOSUMDB="off", GOTOOLCHAIN="local")
 
 
 def sh(cmd, cwd=None, timeout=900):
-    p = subprocess.run(cmd, shell=True, cwd=cwd, env=ENV, stdout=subprocess.PIPE, stderr=subprocess.STDOUT, text=True, timeout=timeout)
+    p = subprocess.run(cmd, shell=True, cwd=cwd, env=ENV, stdout=subprocess.PIPE, stderr=subprocess.STDOUT, text=True, errors="replace", timeout=timeout)
     return p.returncode, p.stdout
 
 
 def main():
     pid, var = sys.argv[1], sys.argv[2]
-    src = "/tmp/seedout/%s/%s" % (pid, var)
+    srcroot = os.environ.get("SEED_SRC", "/tmp/seedout")
+    name = os.environ.get("SEED_AS", var)  # id suffix under /verif/seeded
+    src = "%s/%s/%s" % (srcroot, pid, var)
     patch = sys.argv[3] if len(sys.argv) > 3 else os.path.join(src, "patch.diff")
     demos = [f for f in glob.glob(os.path.join(src, "zz_demo_*_test.go"))]
     if not demos:
         print("no demo file in", src)
         return 2
     demo = demos[0]
-    pkgline = re.search(r"^package\s+(\w+)", open(demo).read(), re.M).group(1)
+    pkgline = re.search(r"^package\s+(\w+)", open(demo, errors="replace").read(), re.M).group(1)
     pkgdir = {"fsutil": ".", "fsutil_test": ".", "fs": "copy", "fs_test": "copy", "util": "util", "util_test": "util", "types": "types"}.get(pkgline, ".")
     testname = "TestDemo" + ("A" if "demo_a" in demo else "B" if "demo_b" in demo else "C")
-    wt = "/tmp/vs-%s-%s" % (pid, var)
+    wt = "/tmp/vs-%s-%s" % (pid, name)
     sh("git -C /repo worktree remove --force %s" % wt)
     rc, out = sh("git -C /repo worktree add --detach %s HEAD" % wt)
     if rc != 0:
         print(out)
         return 2
-    meta = {"id": "%s-%s" % (pid, var), "property": pid, "source": "independent sub-agent given only the property text and its own scratch worktree"}
+    meta = {"id": "%s-%s" % (pid, name), "property": pid, "source": "independent sub-agent given only the property text and its own scratch worktree"}
     try:
         shutil.copy(demo, os.path.join(wt, pkgdir, os.path.basename(demo)))
         run_demo = "go test -vet=off -count=1 -run '^%s$' ./%s" % (testname, pkgdir)
@@ -68,10 +70,10 @@ def main():
     meta["confirmed"] = ok
     notes = os.path.join(src, "notes.md")
     if os.path.exists(notes):
-        txt = open(notes).read()
+        txt = open(notes, errors='replace').read()
         meta["needs_to_manifest"] = txt[:2500]
     # run the registered check against the change
-    ptmp = "/tmp/seed-%s-%s.diff" % (pid, var)
+    ptmp = "/tmp/seed-%s-%s.diff" % (pid, name)
     open(ptmp, "w").write(applied_diff)
     rc, out = sh("TRY_LINES=3 /verif/tools/try_seed.sh %s %s quick" % (ptmp, pid), cwd="/verif", timeout=1800)
     meta["check_command"] = "./check %s quick (with the change applied to /repo, reverted afterwards)" % pid
@@ -81,7 +83,7 @@ def main():
     meta["check_output_excerpt"] = out[-900:]
     meta["demo_command"] = "cd <worktree> && " + ("go test -vet=off -count=1 -run '^%s$' ./%s" % (testname, pkgdir))
     if ok:
-        d = "/verif/seeded/%s-%s" % (pid, var)
+        d = "/verif/seeded/%s-%s" % (pid, name)
         os.makedirs(d, exist_ok=True)
         open(os.path.join(d, "patch.diff"), "w").write(applied_diff)
         shutil.copy(demo, os.path.join(d, os.path.basename(demo)))
